@@ -176,7 +176,14 @@ func runC07(c *kernel.Ctx) {
 				topic += fmt.Sprintf("?ttl=%d", ttlOpt)
 			}
 			world.Advance(c, time.Duration(t.Range(1, 900))*time.Millisecond)
-			cl.Send(cl.Publish(topic, []byte(payload), retain, false))
+			// header variations a client may legally send: QoS 1, and the DUP flag of a re-delivery whose
+			// first copy never arrived (the statement makes no exception for them)
+			pp := cl.Publish(topic, []byte(payload), retain, t.Chance(1, 3))
+			if t.Chance(1, 4) {
+				pp.Dup = true
+				c.Probe("publish-with-dup-flag")
+			}
+			cl.Send(pp)
 			world.Settle()
 			cl.Recv()
 			okPub := key.Perms&model.PermWrite != 0
